@@ -176,7 +176,32 @@ func (a *NodeActor) getMergeOptions() MergeOptions {
 	return MergeOptions{
 		MaxClockSkew:              a.options.MaxClockSkew,
 		VersionConcurrentStrategy: int(a.options.VersionConcurrentStrategy),
+		IsExpired:                 a.isExpired,
 	}
+}
+
+// snapshotForSend 返回用于发送给其他节点的视图快照。发送前刷新本节点自身条目的 LastSeen：
+// 该字段只在收到对方直接发来的消息时刷新，本节点自身的条目从不被刷新，若原样发出，接收方会将发送者本身判定为已过期成员
+func (a *NodeActor) snapshotForSend() *ClusterView {
+	if a.clusterView == nil {
+		return nil
+	}
+	if self := a.clusterView.Members[a.nodeState.ID]; self != nil {
+		self.LastSeen = time.Now().UnixNano()
+	}
+	return a.clusterView.Snapshot()
+}
+
+// isExpired 判断成员的 LastSeen 是否已超过故障检测的移除阈值（与 FailureDetector.RunDetection 的移除条件一致）。
+func (a *NodeActor) isExpired(member *NodeState) bool {
+	timeout := a.failureDetector.TimeoutFor(member, a.nodeState.Datacenter())
+	if timeout <= 0 {
+		return false
+	}
+	if confirm := a.options.SuspectConfirmDuration; confirm > 0 {
+		timeout += confirm
+	}
+	return member.LastSeen < time.Now().Add(-timeout).UnixNano()
 }
 
 // incrementLocalVersion 递增本节点在视图中的版本向量分量；版本由 ClusterView.VersionVector 维护，GetMembers 等从中读取。
@@ -278,7 +303,7 @@ func (a *NodeActor) handleGetView(ctx vivid.ActorContext) {
 		ctx.Reply(vivid.ErrorIllegalArgument)
 		return
 	}
-	snap := a.clusterView.Snapshot()
+	snap := a.snapshotForSend()
 	if snap == nil {
 		ctx.Reply(vivid.ErrorIllegalArgument)
 		return
@@ -374,7 +399,7 @@ func (a *NodeActor) handleJoinRequest(ctx vivid.ActorContext, m *JoinRequest) {
 	a.events.PublishMembersChanged(ctx, a.memberAddresses(), 1, nil)
 	a.events.PublishLeaderIfChanged(ctx, a.clusterView, a.nodeState.Address, a.quorumCalc.SatisfiesQuorum(a.clusterView))
 	a.metricsUpdater.Update(ctx, a.clusterView)
-	snap := a.clusterView.Snapshot()
+	snap := a.snapshotForSend()
 	if snap == nil {
 		ctx.Reply(vivid.ErrorIllegalArgument)
 		return
@@ -420,7 +445,7 @@ func (a *NodeActor) runGossipRoundWithTargets(ctx vivid.ActorContext, targets []
 	if len(targets) == 0 {
 		return
 	}
-	snap := a.clusterView.Snapshot()
+	snap := a.snapshotForSend()
 	if snap == nil {
 		return
 	}
@@ -629,7 +654,7 @@ func (a *NodeActor) pruneLastVersionVectors() {
 
 func (a *NodeActor) broadcastViewOnce(ctx vivid.ActorContext) {
 	a.pruneLastVersionVectors()
-	snap := a.clusterView.Snapshot()
+	snap := a.snapshotForSend()
 	if snap == nil {
 		return
 	}
